@@ -348,7 +348,7 @@ func heightOf(old bool) uint32 {
 	return h + 1000
 }
 
-// call runs one native invocation; a Go panic inside the contract is the observation "panic"
+// call runs one native invocation; a Go panic inside the contract is the observation "panic" (a predicate failure)
 func (c *chain) call(method string, args []byte, wit []string, old bool) (res string, out []byte) {
 	defer func() {
 		if e := recover(); e != nil {
@@ -739,6 +739,7 @@ func exec(line string) hx.Result {
 			outs = append(outs, r)
 			switch {
 			case r == "panic":
+				fail("panic-"+o.m.name, fmt.Sprintf("Go panic inside %s on %s (op %d): a contract invocation must fail with an error, not panic", o.m.name, id, n))
 			case o.m.newOnly && o.old:
 				detail = "fail-gated"
 			case !stOK:
@@ -758,7 +759,7 @@ func exec(line string) hx.Result {
 			res.Kind = o.m.name + ":" + detail
 		}
 		if r == "panic" {
-			res.Kind = o.m.name + ":panic" // always visible in the histogram (noted for C12)
+			res.Kind = o.m.name + ":panic" // always visible in the histogram
 		}
 	}
 	var fin []string
